@@ -29,7 +29,7 @@ CHECK = {
             "name": "c19-sharp", "pkg": RC,
             "harness": ["referenceclient/c19_sharp_test.go"],
             "test": "^TestVerifC19Sharp$",
-            "shards": {"quick": 8, "thorough": 16},
+            "shards": {"quick": 16, "thorough": 16},
             "budget_s": {"quick": 60, "thorough": 500},
         },
     ],
